@@ -61,6 +61,19 @@ def run(tier, rng, C):
             layers.append(M(('look', S('${%sfoo}' % ''.join('p%d:' % d for d in reversed(range(depth)))))))
         cid = C.case_id('k', i)
         cases.append({'id': cid, 'line': V.stack_line(cid, 'value2', layers), 'show': V.stack_show(layers), 'nontrivial': True, 'clean': True})
+    # a key spelled plainly and again with two constant markers at the top level (`k` and `==k`): the second marker is
+    # only consumed when the mapping is rebuilt, where the two spellings meet -- the result is still plain data
+    for i in range(40 if tier == 'quick' else 1200):
+        mk = rng.choice(['==', '==', '=~', '~=', '==='])
+        a, b = rng.choice([(M(('x', I(1))), M(('y', I(2)))), (L(I(1)), L(I(2))), (I(1), I(2))])
+        es = [(S('limits'), a), (S(mk + 'limits'), b), (S('other'), S('o'))]
+        if rng.random() < 0.3:
+            es = [es[1], es[0], es[2]]
+        layers = [('m', es)] if rng.random() < 0.6 else [M(('limits', a)), ('m', [(S('=' + mk + 'limits'), b)])]
+        if rng.random() < 0.3:
+            layers = [M(('top', l)) for l in layers]
+        cid = C.case_id('d', i)
+        cases.append({'id': cid, 'line': V.stack_line(cid, 'value2', layers), 'show': V.stack_show(layers), 'nontrivial': True, 'clean': False})
     # strings that mix inventory-query brackets $[ ... ] (plain text for this implementation), braces and
     # resolvable references: every reference is rendered wherever it stands
     pcs = ['$[', ']', ' ${a} ', '${b:c}', 'txt ', '$[x]', '\\$[', '{', '}', ' if x == ${a}', '$', '${a${d}}', '${', '${}', '${a']
@@ -101,7 +114,10 @@ def run(tier, rng, C):
             if prob is None and second != first:
                 prob = 'rendering the rendered parameters again changes them: ' + C.describe(second)[:200]
             if prob:
-                fails.append({'key': 'not-closed-or-not-fixed-point', 'severity': 'fail', 'show': c['show'], 'lines': [c['line']],
+                # (keys written with four or more leading markers lose one marker per pass over the mapping -- conversion,
+                #  merge, interpolation, flattening -- and can meet their plain spelling after the last flattening: F19)
+                key = 'closed:key-with-four-or-more-markers' if max_markers(c) >= 4 else 'not-closed-or-not-fixed-point'
+                fails.append({'key': key, 'severity': 'fail', 'show': c['show'], 'lines': [c['line']],
                               'reason': prob, 'impl': C.describe(o), 'size': len(c['line'])})
         return fails
     rule = ('%d stacks (reference-bearing random stacks, acyclic reference graphs, plain marked stacks) rendered and then '
@@ -109,6 +125,22 @@ def run(tier, rng, C):
             '(clean-key inputs), second render identical; non-trivial = all (counted after de-duplication); successful renders: see histogram' % n)
     res = C.standard_run(cases, rule, key_fn=lambda c, m, i, r: 'model-impl-differ', extra_oracle=oracle)
     return res
+
+
+def max_markers(c):
+    """largest number of leading = / ~ characters of a string key in the case's input"""
+    import re as _re
+    best = 0
+    for tok in c['line'].split(' '):
+        if tok.startswith('S'):
+            try:
+                t = unhx(tok[1:])
+            except Exception:
+                continue
+            m = _re.match(r'[=~]+', t)
+            if m:
+                best = max(best, len(m.group(0)))
+    return best
 
 
 def strip_refs(a):
